@@ -11,6 +11,7 @@ LEVEL = "proof"
 COQ_FILES = ["Tie/C12_defs.v", "Tie/C12_tie.v", "Props/C12_props.v"]
 PROPS_FILES = ["C12_props.v"]
 TRUSTED_BASE = [
+    "vlib/symex.py (symbolic execution of the translated Python subset on the ast: the translator reads value / outcome trees, so local names, intermediates, helpers and the form of branches do not matter; its assumptions - pure expressions, opaque calls, no aliasing writes, try handlers not modelled - are listed in DESIGN.md 12.7; fail-closed)",
     "py2gallina unit 'datasets' (context-window arithmetic of H5SliceData.get_slice_data, range bookkeeping of parse_filenames_data, ConcatDataset.cumsum/__getitem__ arithmetic)",
     "hand-written model coq/Model/C12.v (admissible slices of a step-1 slice filter, parse fold, window spec, bisect_right), tied by exact correspondence on generated h5 trees",
     "h5py: file[key][a:b] is list slicing; bisect.bisect_right; numpy concatenate/zeros",
